@@ -454,10 +454,14 @@ func genBufScenario(rng *rand.Rand, profile string, mode string) *BScenario {
 	if rng.Intn(3) == 0 {
 		sc.Setup = append(sc.Setup, BOp{K: "put", N: 1 + rng.Intn(2)})
 	}
+	ranger := rng.Intn(nd) // only one driver per scenario iterates with Range / Buffer.Range (keeps histories explainable quickly)
 	for d := 0; d < nd; d++ {
 		var ops []BOp
 		for i := 0; i < nops; i++ {
 			k := pick()
+			for (k == "range" || k == "brange") && d != ranger {
+				k = pick()
+			}
 			op := BOp{K: k}
 			switch k {
 			case "put":
@@ -494,14 +498,14 @@ func genBufScenario(rng *rand.Rand, profile string, mode string) *BScenario {
 }
 
 // runBufExec executes one scenario; mode "c" (controlled) or "f" (free-running).
-func runBufExec(sc *BScenario, mode string, seed int64, strategy string, replay []string, st *Stats, confirm bool) (evs []rec.Ev, res sched.Result, infra string) {
+func runBufExec(execID int, sc *BScenario, mode string, seed int64, strategy string, replay []string, st *Stats, confirm bool) (evs []rec.Ev, res sched.Result, infra string) {
 	x := &bufExec{sc: sc, r: rec.New(), b: new(bigbuff.Buffer), cons: map[int]bigbuff.Consumer{}, reserved: map[int]bool{}, valSeq: map[string]int{}, st: st}
 	x.ctxs = make([]context.Context, sc.NCtx+1)
 	x.cancels = make([]context.CancelFunc, sc.NCtx+1)
 	for i := 1; i <= sc.NCtx; i++ {
 		x.ctxs[i], x.cancels[i] = context.WithCancel(context.Background())
 	}
-	x.r.Add(rec.Ev{"ev": "reset", "cleaner": map[string]any{"kind": sc.Cleaner.Kind, "max": sc.Cleaner.Max, "target": sc.Cleaner.Target}, "mode": mode})
+	x.r.Add(rec.Ev{"ev": "reset", "exec": execID, "cleaner": map[string]any{"kind": sc.Cleaner.Kind, "max": sc.Cleaner.Max, "target": sc.Cleaner.Target}, "mode": mode})
 	var cleaner bigbuff.Cleaner = bigbuff.DefaultCleaner
 	if sc.Cleaner.Kind == "fixed" {
 		cleaner = bigbuff.FixedBufferCleaner(sc.Cleaner.Max, sc.Cleaner.Target, nil)
@@ -533,6 +537,15 @@ func runBufExec(sc *BScenario, mode string, seed int64, strategy string, replay 
 	waitTerminal := func() (stuck bool) {
 		if mode == "c" {
 			r := ctl.Run(opts, x.driversDone)
+			// cheap persistence re-check of the terminal configuration: nothing may move while we wait
+			for r.Infra == "" && !r.Diverged {
+				n := len(r.Steps)
+				time.Sleep(500 * time.Microsecond)
+				r = ctl.Run(opts, x.driversDone)
+				if len(r.Steps) == n {
+					break
+				}
+			}
 			res.Steps, res.Choices = r.Steps, r.Choices
 			res.Blocked = r.Blocked
 			if r.Infra != "" {
@@ -703,7 +716,7 @@ func cmdBuffer(args map[string]string) {
 		if mode != "c" {
 			strategy = ""
 		}
-		evs, res, infra := runBufExec(&sc, mode, ei.Seed, strategy, ei.Choices, st, true)
+		evs, res, infra := runBufExec(0, &sc, mode, ei.Seed, strategy, ei.Choices, st, true)
 		if infra != "" {
 			st.Infra = append(st.Infra, infra)
 		}
@@ -733,7 +746,7 @@ func cmdBuffer(args map[string]string) {
 		}
 		for k := 0; k < reps; k++ {
 			strategy := strategies[(i+k)%len(strategies)]
-			evs, res, infra := runBufExec(sc, mode, eseed+int64(k), strategy, nil, st, false)
+			evs, res, infra := runBufExec(st.Executions, sc, mode, eseed+int64(k), strategy, nil, st, false)
 			if infra != "" {
 				st.Infra = append(st.Infra, fmt.Sprintf("exec %d: %s", st.Executions, infra))
 				// the process state is no longer trustworthy
